@@ -230,6 +230,46 @@ class View:
             return "(%s < %s)" % (a, b), pol
         return self.render(n, env), pol
 
+    def formula(self, n, env, pol=True, depth=0):
+        """DNF (list of frozensets of (atom text, polarity)) of a boolean expression: `!`, `&&`, `||`, and
+        single-definition bool locals are expanded, the leaves are normalised by atom()"""
+        for _ in range(12):
+            k = n.get("k")
+            c = n.get("c") or []
+            if k == "UnaryOperator" and n.get("op") == "!":
+                pol = not pol
+                n = c[0]
+                continue
+            if k in CASTS and c:
+                n = c[0]
+                continue
+            if k == "DeclRefExpr" and n["ref"].get("dk") == "local" and n["ref"].get("decl") not in env \
+                    and n["ref"].get("decl") not in self.param_pos and depth < 6:
+                init = self.single_init(n["ref"].get("decl"))
+                if init is not None:
+                    n = init
+                    depth += 1
+                    continue
+            break
+        k = n.get("k")
+        c = n.get("c") or []
+        if k == "BinaryOperator" and n.get("op") in ("&&", "||") and depth < 8:
+            fa = self.formula(c[0], env, pol, depth + 1)
+            fb = self.formula(c[1], env, pol, depth + 1)
+            conj = (n["op"] == "&&") == pol
+            if not conj:
+                return _simplify(fa + fb)
+            out = []
+            for x in fa:
+                for y in fb:
+                    z = x | y
+                    if any((a, not p) in z for a, p in z):
+                        continue
+                    out.append(z)
+            return _simplify(out)
+        txt, p0 = self.atom(n, env)
+        return [frozenset({(txt, p0 == pol)})]
+
     # ---- loops
     def loops_around(self, node):
         """enclosing loop statements, outermost first"""
@@ -882,8 +922,8 @@ def classify(ci, entry_node=None):
                 ee = ee["c"][0]
             if ee.get("k") == "ConditionalOperator" and len(ee.get("c") or []) == 3:
                 cnd, ea, eb = ee["c"]
-                txt, p0 = view.atom(cnd, senv)
-                variants = [(frozenset({(txt, p0)}), ea), (frozenset({(txt, not p0)}), eb)]
+                fa, fb = view.formula(cnd, senv, True), view.formula(cnd, senv, False)
+                variants = [(x, ea) for x in fa] + [(y, eb) for y in fb]
         for extra, e1 in variants:
             if isinstance(e1, int):
                 step = sign * e1
@@ -905,7 +945,7 @@ def classify(ci, entry_node=None):
             tdnf = []
             mult = []
             for conj in dnf:
-                lits = set(extra)
+                alts = [frozenset(extra)]
                 m = []
                 for (ak, pol) in conj:
                     if ak[0] == "loop":
@@ -913,15 +953,25 @@ def classify(ci, entry_node=None):
                         cnt = view.counted(L2, senv)
                         if cnt is not None and pol:
                             m.append(cnt)
-                        else:
-                            lits.add(("loop(%s)" % view.loop_desc(L2, senv), pol))
+                            continue
+                        f = [frozenset({("loop(%s)" % view.loop_desc(L2, senv), pol)})]
                     elif ak[0] == "case":
-                        lits.add(("sw(%s)==%s" % (view.render(fn.nodes[ak[1]], senv), ak[2]), pol))
+                        f = [frozenset({("sw(%s)==%s" % (view.render(fn.nodes[ak[1]], senv), ak[2]), pol)})]
                     else:
-                        txt, p0 = view.atom(fn.nodes[ak[1]], senv)
-                        lits.add((txt, pol == p0))
-                tdnf.append(frozenset(lits))
-                mult.append(tuple(sorted(m)))
+                        f = view.formula(fn.nodes[ak[1]], senv, pol)
+                    nxt = []
+                    for x in alts:
+                        for y in f:
+                            z = x | y
+                            if any((a, not p) in z for a, p in z):
+                                continue
+                            nxt.append(z)
+                    alts = nxt
+                    if len(alts) > 4096:
+                        raise AnalysisBroken("%s: guard of %s explodes" % (fn.short, ci.name))
+                for z in alts:
+                    tdnf.append(z)
+                    mult.append(tuple(sorted(m)))
             if len(set(mult)) > 1:
                 raise AnalysisBroken("%s: update of %s is reached through different inner loops"
                                      % (fn.short, ci.name))
@@ -1249,31 +1299,45 @@ def rule_step(ctx):
 
 # =========================================================================== R-SCRATCH
 #
-# A *scratch container* is a matrix/vector object whose content at the moment a function starts to
-# work with it is stale (a member kept between calls to avoid re-allocation, a by-reference output
-# parameter) or indeterminate (a local constructed with dimensions only) and that the function
-# fills sparsely or accumulates into.  Clause: a *full initialisation* of the object dominates (CFG)
-# every use that depends on its content - element reads, `v(i) += ..`, `begin()`/`end()` escapes,
-# passing the object to a callee, whole-object arithmetic.  Full initialisations: `set_zero()`,
-# `set_all(c)`, whole assignment, a canonical counted loop that assigns every element over the
-# object's full range, a member of `this` all of whose normal paths fully initialise the object.
-# `reset(n)` / `resize(n)` only (re)size: matvec keeps the old content when the size is unchanged.
+# Objects whose content outlives one use: container members kept between calls (to avoid
+# re-allocation, or as buffers filled by several handlers), scalar members that are counted up, by-
+# reference output parameters, locals constructed with dimensions only.  Events on such an object:
 #
-# Which *members* are scratch is frozen in step.json (`scratch.members`, role `scratch` vs
-# `persistent` with the reason); locals and reference parameters are scratch when the function
-# zeroes them at all (the zeroing must then dominate every use).
+#   full initialisation   set_zero() / set_all(c) / fill / assign, whole assignment `v = w`, clear(),
+#                         erase(begin(), end()), reset() without size, `n = 0` for a scalar, a canonical
+#                         counted loop assigning every element over the object's full range, a member of
+#                         `this` all of whose normal paths fully initialise the object (must-init summary)
+#   accumulation          `v(i) += e`, `v += w`, push_back / insert / emplace, `n++`, `n += e`
+#   read                  element reads, begin()/end() escapes, passing the object, whole-object arithmetic
+#   neutral               reset(n)/resize(n) (matvec keeps the content when the size is unchanged),
+#                         dim()/size()/.., a plain element write `v(i) = e`
+#
+# Roles frozen in step.json (`scratch.members`), each with its reason:
+#   scratch / rebuilt     per call: in every method a full initialisation dominates (CFG) every accumulation
+#                         and every read of the member; `readers` lists the methods that legitimately read
+#                         the finished result (reads only - an accumulation there is still a violation);
+#                         a non-public helper is fine when every caller initialises before the call
+#   accumulator           per scope (a run, an element, a cluster): filled by several methods, so the clause
+#                         is on the scope boundary: for every group of `entries` (alternatives, e.g. the
+#                         start handler or the finish function of a cluster) at least one method fully
+#                         re-initialises the member on every *normal* path (paths through a call of an
+#                         `abnormal` function such as the parser's error() or through a throw do not count)
+#   persistent            state kept between calls by design (results, caches, the factorisation): no clause
+# Locals and reference parameters are scratch when the function zeroes them at all (the zeroing must then
+# dominate every use; for an output parameter the sparse element writes count as uses).
 
-CONTAINER_RE = re.compile(r"(^|[\s:<])(Vec|Mat|SymMat|CovMat|BandMat|TransMat|TransVec|IntegerList|vector)<")
+CONTAINER_RE = re.compile(r"(^|[\s:<])(Vec|Mat|SymMat|CovMat|BandMat|TransMat|TransVec|IntegerList|vector|set|list|"
+                          r"map|multimap|deque)<")
 SHAPE_METHODS = {"dim", "rows", "cols", "size", "max_size", "capacity", "bandWidth", "empty", "min_rc", "max_rc"}
 ZERO_METHODS = {"set_zero", "set_all", "set_identity", "set_diagonal", "assign", "fill"}
 RESIZE_METHODS = {"reset", "resize", "reserve"}
 EMPTY_METHODS = {"clear"}
-APPEND_METHODS = {"push_back", "emplace_back"}
+APPEND_METHODS = {"push_back", "emplace_back", "push_front", "emplace_front", "insert", "emplace", "emplace_hint"}
 
 
 def is_container_type(t):
     t = (t or "")
-    if t.endswith("*"):
+    if t.rstrip().endswith("*"):
         return False
     return bool(CONTAINER_RE.search(" " + t))
 
@@ -1285,24 +1349,50 @@ class Ev:
         self.kind, self.node, self.info = kind, node, info
 
 
-def _obj_id(n, cls_fields):
-    """identity of a container object expression: member of this / local / parameter"""
+def _obj_id(n, scalars):
+    """identity of an object expression: member of this / local / parameter"""
     k = n.get("k")
     if k == "MemberExpr" and n.get("mk") == "field" and F.is_this_field(n):
-        if is_container_type(n.get("t")) or n.get("member") in cls_fields:
+        if is_container_type(n.get("t")):
             return ("f", n.get("member"))
+        if n.get("member") in scalars:
+            return ("s", n.get("member"))
     if k == "DeclRefExpr" and n["ref"].get("dk") in ("local", "parm") and "decl" in n["ref"]:
         if is_container_type(n.get("t")):
             return ("l", n["ref"]["decl"])
     return None
 
 
-def collect_events(view, cls_fields=()):
-    """object id -> [Ev] for every container object referenced in the function"""
+def _is_begin_end_of(view, args, oid, scalars):
+    """erase(m.begin(), m.end()) on the same object"""
+    if len(args) != 2:
+        return False
+    names = []
+    for a in args:
+        x = a
+        while x.get("k") in CASTS + ("CXXConstructExpr",) and x.get("c"):
+            x = x["c"][0]
+        if x.get("k") != "CXXMemberCallExpr":
+            return False
+        obj = F.call_object(x)
+        if obj is None or _obj_id(obj, scalars) != oid:
+            return False
+        names.append(x["c"][0].get("member"))
+    return names in (["begin", "end"], ["cbegin", "cend"])
+
+
+def collect_events(view, scalars=()):
+    """object id -> [Ev] for every object of interest referenced in the function"""
     fn = view.fn
+    cache = getattr(view, "_events", None)
+    if cache is None:
+        cache = view._events = {}
+    ck = tuple(sorted(scalars))
+    if ck in cache:
+        return cache[ck]
     evs = defaultdict(list)
     for n in fn.walk():
-        oid = _obj_id(n, cls_fields)
+        oid = _obj_id(n, scalars)
         if oid is None:
             continue
         p = fn.parent(n)
@@ -1312,12 +1402,22 @@ def collect_events(view, cls_fields=()):
             continue
         k = p.get("k")
         c = p.get("c") or []
-        kind, info = "consume", None
+        if oid[0] == "s":
+            if k == "BinaryOperator" and p.get("op") == "=" and c and c[0] is n:
+                evs[oid].append(Ev("fullinit", p, "assigned"))
+            elif k == "CompoundAssignOperator" and c and c[0] is n:
+                evs[oid].append(Ev("accum", p, p.get("op")))
+            elif k == "UnaryOperator" and p.get("op") in ("++", "--"):
+                evs[oid].append(Ev("accum", p, p.get("op")))
+            else:
+                evs[oid].append(Ev("consume", p, k))
+            continue
         if k == "MemberExpr" and p.get("mk") == "method":
             call = fn.parent(p)
             m = p.get("member")
             if call is not None and call.get("k") == "CXXMemberCallExpr":
                 args = F.call_args(call)
+                info = None
                 if m in SHAPE_METHODS:
                     kind = "shape"
                 elif m in ZERO_METHODS:
@@ -1329,8 +1429,12 @@ def collect_events(view, cls_fields=()):
                         kind = "empty"
                 elif m in EMPTY_METHODS:
                     kind = "empty"
+                elif m == "erase" and _is_begin_end_of(view, args, oid, scalars):
+                    kind = "empty"
                 elif m in APPEND_METHODS:
                     kind = "append"
+                elif m in ("begin", "end", "cbegin", "cend") and _feeds_full_erase(fn, call):
+                    kind = "shape"
                 else:
                     kind = "consume"
                     info = m
@@ -1340,7 +1444,6 @@ def collect_events(view, cls_fields=()):
             op = p.get("op")
             args = c[1:]
             if op in ("()", "[]") and args and args[0] is n:
-                # element access: what happens to the element?
                 gp = fn.parent(p)
                 cur = p
                 while gp is not None and gp.get("k") in CASTS:
@@ -1351,6 +1454,10 @@ def collect_events(view, cls_fields=()):
                     evs[oid].append(Ev("elemwrite", gp, args[1:]))
                 elif gk == "CXXOperatorCallExpr" and gp.get("op") == "=" and len(gc) > 1 and gc[1] is cur:
                     evs[oid].append(Ev("elemwrite", gp, args[1:]))
+                elif gk == "CompoundAssignOperator" and gc and gc[0] is cur:
+                    evs[oid].append(Ev("accum", gp, "element " + str(gp.get("op"))))
+                elif gk == "UnaryOperator" and gp.get("op") in ("++", "--"):
+                    evs[oid].append(Ev("accum", gp, "element " + str(gp.get("op"))))
                 elif gk == "MemberExpr" and gp.get("mk") == "method" and gp.get("member") in (
                         ZERO_METHODS | RESIZE_METHODS | SHAPE_METHODS):
                     evs[oid].append(Ev("elemshape", p, None))
@@ -1360,12 +1467,14 @@ def collect_events(view, cls_fields=()):
             if op == "=" and args and args[0] is n:
                 evs[oid].append(Ev("fullinit", p, "assigned"))
                 continue
+            if op in ("+=", "-=", "*=", "/=") and args and args[0] is n:
+                evs[oid].append(Ev("accum", p, "whole " + op))
+                continue
             evs[oid].append(Ev("consume", p, "operator" + str(op)))
             continue
         if k == "DeclStmt":
             continue
         evs[oid].append(Ev("consume", p, k))
-    # declarations of locals
     for n in fn.walk():
         if n.get("k") == "DeclStmt":
             for d in n.get("decls", []):
@@ -1374,19 +1483,32 @@ def collect_events(view, cls_fields=()):
                     args = []
                     if init is not None and init.get("k") in ("CXXConstructExpr", "CXXTemporaryObjectExpr"):
                         args = init.get("c") or []
-                    copyinit = init is not None and not (
+                    dims_only = init is None or (
                         init.get("k") in ("CXXConstructExpr", "CXXTemporaryObjectExpr")
                         and all(is_int_type(a.get("t")) for a in args))
                     evs[("l", d["decl"])].append(
-                        Ev("fullinit" if copyinit and init is not None and args else "decl", n,
-                           [view.render(a, {}) for a in args]))
+                        Ev("decl" if dims_only else "fullinit", n, [view.render(a, {}) for a in args]))
+    cache[ck] = evs
     return evs
 
 
+def _feeds_full_erase(fn, call):
+    """m.begin() / m.end() as an argument of m.erase(m.begin(), m.end()): part of the clearing idiom"""
+    p = fn.parent(call)
+    for _ in range(4):
+        if p is None:
+            return False
+        if p.get("k") == "CXXMemberCallExpr" and (p["c"][0].get("member") == "erase"):
+            return True
+        if p.get("k") in CASTS + ("CXXConstructExpr",):
+            p = fn.parent(p)
+            continue
+        return False
+    return False
+
+
 def _full_loop_inits(view, oid, evs, size_texts):
-    """canonical counted loops that assign every element of a vector over its full range:
-    returns [loop node]"""
-    fn = view.fn
+    """canonical counted loops that assign every element of a vector over its full range: [loop node]"""
     out = []
     for ev in evs:
         if ev.kind != "elemwrite" or not ev.info or len(ev.info) != 1:
@@ -1402,11 +1524,8 @@ def _full_loop_inits(view, oid, evs, size_texts):
         if idx["ref"]["decl"] not in own:
             continue
         X = view.counted(L, {})
-        if X is None:
+        if X is None or X not in size_texts:
             continue
-        if X not in size_texts:
-            continue
-        # the assignment runs on every iteration
         T, H, E, Xb = view.loop_blocks(L)
         inner = [x for x in walk(L.get("body")) if x.get("k") in LOOPS]
         reg = view.region(("loop", L["id"]), E, H, inner)
@@ -1417,70 +1536,103 @@ def _full_loop_inits(view, oid, evs, size_texts):
     return out
 
 
-def _must_init_members(fx, fn, memo, depth=0):
-    """member names that every normal path of fn fully initialises"""
-    if fn.key in memo:
-        return memo[fn.key]
-    memo[fn.key] = set()
-    if fn.body is None or depth > 4:
-        return set()
-    view = View(fn)
-    evs = collect_events(view)
-    res = set()
-    cfg = fn.cfg
-    for oid, lst in evs.items():
-        if oid[0] != "f":
-            continue
-        for ev in lst:
-            if ev.kind == "fullinit":
-                pos = cfg.block_of(ev.node)
-                if pos is not None and pos[0] in cfg.pdom.get(cfg.entry, ()):
-                    res.add(oid[1])
-    # transitively through members called on this on every path
-    for call in fn.calls():
-        if call.get("k") != "CXXMemberCallExpr":
-            continue
-        obj = F.call_object(call)
-        if obj is None or obj.get("k") != "CXXThisExpr":
-            continue
-        pos = cfg.block_of(call)
-        if pos is None or pos[0] not in cfg.pdom.get(cfg.entry, ()):
-            continue
-        cal = fx.functions.get(call.get("calleeKey"))
-        if cal is not None:
-            res |= _must_init_members(fx, cal, memo, depth + 1)
-    memo[fn.key] = res
-    return res
-
-
 class ScratchAnalysis:
     def __init__(self, fx):
         self.fx = fx
-        self.memo = {}
         self.views = {}
+        self.mi_memo = {}
 
     def view(self, fn):
         if fn.key not in self.views:
             self.views[fn.key] = View(fn)
         return self.views[fn.key]
 
-    def analyse(self, fn, oid, cls_fields=(), size_texts=(), writes_are_uses=False):
-        """(uses, inits, undominated uses) of one object in one function"""
+    # ---- must-init summaries
+    def must_init(self, fn, oid, scalars=(), abnormal=(), size_texts=(), _depth=0):
+        """every normal path of fn (entry -> exit, not through an abnormal call or a throw) passes a full
+        initialisation of the member - directly, by a full-range loop, or through a member called on this"""
+        mk = (fn.key, oid, tuple(sorted(abnormal)))
+        if mk in self.mi_memo:
+            return self.mi_memo[mk]
+        self.mi_memo[mk] = False
+        if fn.body is None or _depth > 5:
+            return False
         view = self.view(fn)
-        evs = collect_events(view, cls_fields).get(oid, [])
+        cfg = fn.cfg
+        evs = collect_events(view, scalars).get(oid, [])
+        init_blocks = set()
+        for ev in evs:
+            if ev.kind in ("fullinit", "empty"):
+                pos = cfg.block_of(ev.node)
+                if pos is not None:
+                    init_blocks.add(pos[0])
+        sizes = set(size_texts)
+        for ev in evs:
+            if ev.kind == "resize" and ev.info and len(ev.info) == 1:
+                sizes.add(ev.info[0])
+        if oid[0] == "f":
+            sizes |= {"%s.dim()" % oid[1], "%s.size()" % oid[1]}
+        loop_exits = set()
+        for L in _full_loop_inits(view, oid, evs, sizes):
+            T, H, E, X = view.loop_blocks(L)
+            if X is not None and X >= 0:
+                loop_exits.add((T, X))
+        abn = set()
+        for call in fn.calls():
+            cal = strip_targs(call.get("callee") or "").split("::")[-1]
+            if cal in abnormal:
+                pos = cfg.block_of(call)
+                if pos is not None:
+                    abn.add(pos[0])
+            if call.get("k") == "CXXMemberCallExpr":
+                obj = F.call_object(call)
+                if obj is not None and obj.get("k") == "CXXThisExpr":
+                    cfn = self.fx.functions.get(call.get("calleeKey"))
+                    if cfn is not None and cfn.key != fn.key and \
+                            self.must_init(cfn, oid, scalars, abnormal, size_texts, _depth + 1):
+                        pos = cfg.block_of(call)
+                        if pos is not None:
+                            init_blocks.add(pos[0])
+        for n in fn.walk():
+            if n.get("k") == "CXXThrowExpr":
+                pos = cfg.block_of(n)
+                if pos is not None:
+                    abn.add(pos[0])
+        # is the exit reachable on a normal path that avoids every initialisation?
+        seen = set()
+        stack = [cfg.entry]
+        res = True
+        while stack:
+            b = stack.pop()
+            if b in seen or b in init_blocks or b in abn:
+                continue
+            seen.add(b)
+            if b == cfg.exit:
+                res = False
+                break
+            for s_ in cfg.succ.get(b, []):
+                if (b, s_) in loop_exits:
+                    continue      # leaving a full-range initialising loop: initialised
+                stack.append(s_)
+        self.mi_memo[mk] = res
+        return res
+
+    # ---- dominance clause inside one function
+    def analyse(self, fn, oid, scalars=(), size_texts=(), writes_are_uses=False):
+        """(reads, accumulations, inits, undominated reads, undominated accumulations, events)"""
+        view = self.view(fn)
+        evs = collect_events(view, scalars).get(oid, [])
         cfg = fn.cfg
         sizes = set(size_texts)
         for ev in evs:
             if ev.kind in ("resize", "decl") and ev.info and len(ev.info) == 1:
                 sizes.add(ev.info[0])
-        name = oid[1] if oid[0] == "f" else None
-        # size written through the object itself
-        sizes |= {"%s.dim()" % name, "%s.size()" % name} if name else set()
-        inits = [ev.node for ev in evs if ev.kind in ("fullinit",)]
-        empties = [ev.node for ev in evs if ev.kind == "empty"]
+        if oid[0] == "f":
+            sizes |= {"%s.dim()" % oid[1], "%s.size()" % oid[1]}
+        inits = [ev.node for ev in evs if ev.kind in ("fullinit", "empty")]
         loops = _full_loop_inits(view, oid, evs, sizes)
         helper_inits = []
-        if oid[0] == "f":
+        if oid[0] in ("f", "s"):
             for call in fn.calls():
                 if call.get("k") != "CXXMemberCallExpr":
                     continue
@@ -1488,27 +1640,26 @@ class ScratchAnalysis:
                 if obj is None or obj.get("k") != "CXXThisExpr":
                     continue
                 cal = self.fx.functions.get(call.get("calleeKey"))
-                if cal is not None and cal.key != fn.key and oid[1] in _must_init_members(self.fx, cal, self.memo):
+                if cal is not None and cal.key != fn.key and self.must_init(cal, oid, scalars, (), sizes):
                     helper_inits.append(call)
-        uses = [ev for ev in evs if ev.kind == "consume" or (writes_are_uses and ev.kind == "elemwrite")]
-        und = []
-        for u in uses:
-            ok = False
-            for f in inits + helper_inits + empties:
+        reads = [ev for ev in evs if ev.kind == "consume"]
+        accs = [ev for ev in evs if ev.kind in ("accum", "append") or (writes_are_uses and ev.kind == "elemwrite")]
+
+        def dominated(u):
+            for f in inits + helper_inits:
                 if cfg.dominates(f, u.node):
-                    ok = True
-                    break
-            if not ok:
-                for L in loops:
-                    inside = any(a is L for a in fn.ancestors(u.node))
-                    T, H, E, X = view.loop_blocks(L)
-                    upos = cfg.block_of(u.node)
-                    if not inside and upos is not None and T in cfg.dom.get(upos[0], ()):
-                        ok = True
-                        break
-            if not ok:
-                und.append(u)
-        return uses, inits + helper_inits + loops, und, evs
+                    return True
+            for L in loops:
+                inside = any(a is L for a in fn.ancestors(u.node))
+                T, H, E, X = view.loop_blocks(L)
+                upos = cfg.block_of(u.node)
+                if not inside and upos is not None and T in cfg.dom.get(upos[0], ()):
+                    return True
+            return False
+
+        und_r = [u for u in reads if not dominated(u)]
+        und_a = [u for u in accs if not dominated(u)]
+        return reads, accs, inits + helper_inits + loops, und_r, und_a, evs
 
 
 def _is_reference_local(fn, decl):
@@ -1528,126 +1679,7 @@ def _class_fields(fx, cls):
     return out
 
 
-def rule_scratch(ctx):
-    rule = "R-SCRATCH"
-    fx = ctx.facts
-    tab = engine.load_table("step.json")["scratch"]
-    sa = ScratchAnalysis(fx)
-    n_member = 0
-    n_persist = 0
-    n_reader = 0
-    by_class = defaultdict(list)
-    for m in tab["members"]:
-        by_class[m["class"]].append(m)
-    for cls, members in sorted(by_class.items()):
-        fields = _class_fields(fx, cls)
-        methods = [f for f in fx.methods_of(cls) if f.body is not None]
-        tabled = set()
-        for m in members:
-            name = m["member"]
-            tabled.add(name)
-            if name not in fields:
-                raise AnalysisBroken("R-SCRATCH: %s has no member %s any more: re-confirm the table" % (cls, name))
-            if m["role"] == "persistent":
-                n_persist += 1
-                continue
-            if m["role"] not in ("scratch", "rebuilt"):
-                raise AnalysisBroken("R-SCRATCH: unknown role %s for %s::%s" % (m["role"], cls, name))
-            # the size the member is given anywhere in the class
-            size_texts = set()
-            for fn in methods:
-                for ev in collect_events(sa.view(fn)).get(("f", name), []):
-                    if ev.kind == "resize" and ev.info and len(ev.info) == 1:
-                        size_texts.add(ev.info[0])
-            touched = 0
-            for fn in sorted(methods, key=lambda f: f.key):
-                uses, inits, und, evs = sa.analyse(fn, ("f", name), (), size_texts)
-                if not uses:
-                    continue
-                ctx.saw(fn)
-                touched += 1
-                key = "%s:%s" % (fn.sig, name)
-                n_member += 1
-                hand = (m.get("readers") or {}).get(fn.name)
-                if not und:
-                    ctx.ok(rule, key, fn.where(), fn.short, "", {"role": "scratch", "reason": m.get("reason", ""),
-                                                               "inits": len(inits), "uses": len(uses)})
-                    continue
-                if hand:
-                    ctx.ok(rule, key, fn.where(), fn.short, "", {"role": "reader", "reason": hand})
-                    n_reader += 1
-                    continue
-                # a non-public helper is fine if every caller initialises before the call
-                if _callers_initialise(sa, fx, cls, methods, fn, name, size_texts, set()):
-                    ctx.ok(rule, key, fn.where(), fn.short, "", {"role": "scratch", "via": "callers"})
-                    continue
-                u = und[0]
-                ctx.bad(rule, key, fn.where(u.node), fn.short,
-                        "scratch member `%s` is used (%s) on a path on which no full initialisation "
-                        "(set_zero / whole assignment / full-range loop / initialising helper) of this call "
-                        "precedes it: it still holds the previous call's content (%s)"
-                        % (name, F.expr_text(u.node)[:80], m.get("reason", "")))
-            if touched == 0:
-                raise AnalysisBroken("R-SCRATCH: scratch member %s::%s is used by no method any more" % (cls, name))
-        for f, t in sorted(fields.items()):
-            if f not in tabled and is_container_type(t):
-                ctx.note("R-SCRATCH: container member %s::%s (%s) has no role in step.json (not decided)"
-                         % (short(cls), f, type_short(t)))
-    # locals and reference parameters that the function zeroes
-    n_local = 0
-    scope = tab["local_scope"]
-    for fn in sorted(fx.functions.values(), key=lambda f: (f.file, f.line, f.key)):
-        if not in_scope(fn, scope):
-            continue
-        view = sa.view(fn)
-        try:
-            allev = collect_events(view)
-        except AnalysisBroken:
-            raise
-        seen_keys = Counter()
-        for oid, evs in sorted(allev.items(), key=lambda kv: str(kv[0])):
-            if oid[0] != "l":
-                continue
-            if not any(ev.kind == "fullinit" and ev.info != "assigned" and ev.node.get("k") == "CXXMemberCallExpr"
-                       for ev in evs):
-                continue
-            is_param = oid[1] in view.param_pos
-            if not is_param and _is_reference_local(fn, oid[1]):
-                continue          # an alias of another object (e.g. a cache row): not this function's scratch
-            uses, inits, und, _ = sa.analyse(fn, oid, writes_are_uses=is_param)
-            if not uses:
-                continue
-            ctx.saw(fn)
-            decl = [ev for ev in evs if ev.kind in ("decl", "fullinit") and ev.node.get("k") == "DeclStmt"]
-            if oid[1] in view.param_pos:
-                desc = "param@%d" % view.param_pos[oid[1]]
-            else:
-                t = ""
-                for ev in decl:
-                    for d in ev.node.get("decls", []):
-                        if d.get("decl") == oid[1]:
-                            t = type_short(d.get("t"))
-                desc = "local %s(%s)" % (t, ", ".join(decl[0].info or []) if decl else "")
-            key = "%s:%s" % (fn.sig, desc)
-            seen_keys[key] += 1
-            if seen_keys[key] > 1:
-                key += "#%d" % seen_keys[key]
-            n_local += 1
-            if und:
-                u = und[0]
-                ctx.bad(rule, key, fn.where(u.node), fn.short,
-                        "container is zeroed in this function but used (%s) on a path the zeroing does not "
-                        "dominate" % F.expr_text(u.node)[:80])
-            else:
-                ctx.ok(rule, key, fn.where(), fn.short, "", {"inits": len(inits), "uses": len(uses)})
-    fl = tab.get("floors", {})
-    ctx.floor(rule, fl.get("member_instances", 0), n_member - n_reader,
-              "(method, scratch member) instances with an initialisation obligation")
-    ctx.floor(rule, fl.get("persistent", 0), n_persist, "members with a persistent role")
-    ctx.floor(rule, fl.get("local_instances", 0), n_local, "zeroed locals / reference parameters")
-
-
-def _callers_initialise(sa, fx, cls, methods, fn, name, size_texts, visiting):
+def _callers_initialise(sa, fx, methods, fn, oid, scalars, size_texts, visiting):
     """fn (non-public, non-virtual) uses the member without initialising it: every call of fn on this
     inside the class must be dominated by a full initialisation in the caller (or the caller is itself
     such a helper)."""
@@ -1664,7 +1696,7 @@ def _callers_initialise(sa, fx, cls, methods, fn, name, size_texts, visiting):
             if call.get("calleeKey") != fn.key:
                 continue
             sites += 1
-            uses, inits, und, evs = sa.analyse(caller, ("f", name), (), size_texts)
+            reads, accs, inits, und_r, und_a, evs = sa.analyse(caller, oid, scalars, size_texts)
             ok = any(caller.cfg.dominates(i, call) for i in inits if i.get("k") not in LOOPS)
             if not ok:
                 for L in [i for i in inits if i.get("k") in LOOPS]:
@@ -1673,6 +1705,165 @@ def _callers_initialise(sa, fx, cls, methods, fn, name, size_texts, visiting):
                     if cpos is not None and T in caller.cfg.dom.get(cpos[0], ()) and \
                             not any(a is L for a in caller.ancestors(call)):
                         ok = True
-            if not ok and not _callers_initialise(sa, fx, cls, methods, caller, name, size_texts, visiting):
+            if not ok and not _callers_initialise(sa, fx, methods, caller, oid, scalars, size_texts, visiting):
                 return False
     return sites > 0
+
+
+def rule_scratch(ctx):
+    rule = "R-SCRATCH"
+    fx = ctx.facts
+    tab = engine.load_table("step.json")["scratch"]
+    sa = ScratchAnalysis(fx)
+    n_oblig = n_persist = n_reader = n_entry = 0
+    by_class = defaultdict(list)
+    for m in tab["members"]:
+        by_class[m["class"]].append(m)
+    for cls, members in sorted(by_class.items()):
+        fields = _class_fields(fx, cls)
+        methods = [f for f in fx.methods_of(cls) if f.body is not None]
+        by_name = defaultdict(list)
+        for f in methods:
+            by_name[f.name].append(f)
+        scalars = tuple(sorted(m["member"] for m in members if m["member"] in fields
+                               and not is_container_type(fields[m["member"]])))
+        tabled = set()
+        for m in members:
+            name = m["member"]
+            tabled.add(name)
+            if name not in fields:
+                raise AnalysisBroken("R-SCRATCH: %s has no member %s any more: re-confirm the table" % (cls, name))
+            oid = ("f" if is_container_type(fields[name]) else "s", name)
+            role = m["role"]
+            if role == "persistent":
+                n_persist += 1
+                continue
+            if role not in ("scratch", "rebuilt", "accumulator"):
+                raise AnalysisBroken("R-SCRATCH: unknown role %s for %s::%s" % (role, cls, name))
+            size_texts = set()
+            for fn in methods:
+                for ev in collect_events(sa.view(fn), scalars).get(oid, []):
+                    if ev.kind == "resize" and ev.info and len(ev.info) == 1:
+                        size_texts.add(ev.info[0])
+            if role == "accumulator":
+                abnormal = tuple(m.get("abnormal", ()))
+                n_acc_sites = 0
+                for fn in methods:
+                    for ev in collect_events(sa.view(fn), scalars).get(oid, []):
+                        if ev.kind in ("accum", "append"):
+                            n_acc_sites += 1
+                if n_acc_sites == 0:
+                    raise AnalysisBroken("R-SCRATCH: accumulator %s::%s is accumulated nowhere any more"
+                                         % (cls, name))
+                for grp in m["entries"]:
+                    cands = []
+                    for en in grp:
+                        if en not in by_name:
+                            raise AnalysisBroken("R-SCRATCH: scope entry %s::%s of %s not found" % (cls, en, name))
+                        cands += by_name[en]
+                    okfn = [f for f in cands if sa.must_init(f, oid, scalars, abnormal, size_texts)]
+                    for f in cands:
+                        ctx.saw(f)
+                    key = "%s:%s:reset-per-scope" % ("|".join(sorted({f.sig for f in cands})), name)
+                    n_entry += 1
+                    if okfn:
+                        ctx.ok(rule, key, okfn[0].where(), okfn[0].short, "",
+                               {"role": "accumulator", "reason": m.get("reason", ""), "reset_in": okfn[0].short})
+                    else:
+                        f0 = cands[-1]
+                        ctx.bad(rule, key, f0.where(), f0.short,
+                                "`%s` is accumulated (%d site(s): push_back / insert / ++) within a scope but none of "
+                                "%s re-initialises it (clear / assignment) on every normal path: the next scope starts "
+                                "from the previous content (%s)" % (name, n_acc_sites, [f.short for f in cands],
+                                                                    m.get("reason", "")))
+                continue
+            touched = 0
+            for fn in sorted(methods, key=lambda f: f.key):
+                reads, accs, inits, und_r, und_a, evs = sa.analyse(fn, oid, scalars, size_texts)
+                if not reads and not accs:
+                    continue
+                ctx.saw(fn)
+                touched += 1
+                key = "%s:%s" % (fn.sig, name)
+                hand = (m.get("readers") or {}).get(fn.name)
+                bad = list(und_a)
+                if not hand:
+                    bad += und_r
+                if bad and _callers_initialise(sa, fx, methods, fn, oid, scalars, size_texts, set()):
+                    n_oblig += 1
+                    ctx.ok(rule, key, fn.where(), fn.short, "", {"role": role, "via": "callers"})
+                    continue
+                if not bad:
+                    if hand and und_r:
+                        n_reader += 1
+                        ctx.ok(rule, key, fn.where(), fn.short, "", {"role": "reader", "reason": hand})
+                    else:
+                        n_oblig += 1
+                        ctx.ok(rule, key, fn.where(), fn.short, "",
+                               {"role": role, "reason": m.get("reason", ""), "inits": len(inits),
+                                "reads": len(reads), "accumulations": len(accs)})
+                    continue
+                n_oblig += 1
+                u = bad[0]
+                what = "accumulated into" if u in und_a else "read"
+                ctx.bad(rule, key, fn.where(u.node), fn.short,
+                        "member `%s` is %s (%s) on a path on which no full initialisation (set_zero / clear / "
+                        "whole assignment / full-range loop / initialising helper) of this call precedes it: it "
+                        "still holds the previous call's content (%s)"
+                        % (name, what, F.expr_text(u.node)[:80], m.get("reason", "")))
+            if touched == 0:
+                raise AnalysisBroken("R-SCRATCH: member %s::%s is used by no method any more" % (cls, name))
+        for f, t in sorted(fields.items()):
+            if f not in tabled and is_container_type(t) and not t.rstrip().endswith("&"):
+                ctx.note("R-SCRATCH: container member %s::%s (%s) has no role in step.json (not decided)"
+                         % (short(cls), f, type_short(t)))
+    # locals and reference parameters that the function zeroes
+    n_local = 0
+    scope = tab["local_scope"]
+    for fn in sorted(fx.functions.values(), key=lambda f: (f.file, f.line, f.key)):
+        if not in_scope(fn, scope):
+            continue
+        view = sa.view(fn)
+        allev = collect_events(view)
+        seen_keys = Counter()
+        for oid, evs in sorted(allev.items(), key=lambda kv: str(kv[0])):
+            if oid[0] != "l":
+                continue
+            if not any(ev.kind == "fullinit" and ev.node.get("k") == "CXXMemberCallExpr" for ev in evs):
+                continue
+            is_param = oid[1] in view.param_pos
+            if not is_param and _is_reference_local(fn, oid[1]):
+                continue          # an alias of another object (e.g. a cache row): not this function's scratch
+            reads, accs, inits, und_r, und_a, _ = sa.analyse(fn, oid, writes_are_uses=is_param)
+            if not reads and not accs:
+                continue
+            ctx.saw(fn)
+            decl = [ev for ev in evs if ev.kind in ("decl", "fullinit") and ev.node.get("k") == "DeclStmt"]
+            if is_param:
+                desc = "param@%d" % view.param_pos[oid[1]]
+            else:
+                t = ""
+                for ev in decl:
+                    for d in ev.node.get("decls", []):
+                        if d.get("decl") == oid[1]:
+                            t = type_short(d.get("t"))
+                desc = "local %s(%s)" % (t, ", ".join(decl[0].info or []) if decl else "")
+            key = "%s:%s" % (fn.sig, desc)
+            seen_keys[key] += 1
+            if seen_keys[key] > 1:
+                key += "#%d" % seen_keys[key]
+            n_local += 1
+            und = und_a + und_r
+            if und:
+                u = und[0]
+                ctx.bad(rule, key, fn.where(u.node), fn.short,
+                        "container is zeroed in this function but used (%s) on a path the zeroing does not "
+                        "dominate" % F.expr_text(u.node)[:80])
+            else:
+                ctx.ok(rule, key, fn.where(), fn.short, "", {"inits": len(inits), "uses": len(reads) + len(accs)})
+    fl = tab.get("floors", {})
+    ctx.floor(rule, fl.get("member_instances", 0), n_oblig,
+              "(method, scratch member) instances with an initialisation obligation")
+    ctx.floor(rule, fl.get("scope_entries", 0), n_entry, "accumulator scope entries")
+    ctx.floor(rule, fl.get("persistent", 0), n_persist, "members with a persistent role")
+    ctx.floor(rule, fl.get("local_instances", 0), n_local, "zeroed locals / reference parameters")
